@@ -24,7 +24,7 @@ ROOT = os.path.dirname(os.path.dirname(os.path.abspath(__file__)))
 REPO = os.environ.get("VERIF_REPO", "/repo")
 LEAN_DIR = os.path.join(ROOT, "lean", "GardenVerif")
 BUILD = os.path.join(ROOT, ".build")
-TARGET_DIR = os.path.join(BUILD, "garden-target")
+TARGET_DIR = os.environ.get("VERIF_TARGET", os.path.join(BUILD, "garden-target"))
 GARDEN = os.path.join(TARGET_DIR, "debug", "garden")
 DRIVER = os.path.join(LEAN_DIR, ".lake", "build", "bin", "gvdriver")
 REPLAY_DIR = os.path.join(BUILD, "replay")
@@ -332,7 +332,7 @@ class Ctx:
 
     # ------------------------------------------------------------ step 3: garden
     def step_garden(self):
-        with Lock("cargo"):
+        with Lock("cargo-" + hashlib.sha1(TARGET_DIR.encode()).hexdigest()[:8]):
             t = time.time()
             rc, so, se = run_cmd(
                 ["cargo", "build", "--offline", "--bin", "garden"], cwd=REPO, timeout=3600, mem_gb=None,
